@@ -177,7 +177,18 @@ def run_c16(ctx, fa):
     ucases = []
     urnd = ctx.sub_rnd("c16u")
     for i in range(60 if ctx.quick() else 600):
-        kind = urnd.choice(["dec", "dec", "date", "uuid", "ts"])
+        kind = urnd.choice(["dec", "dec", "date", "uuid", "ts", "dec2"])
+        if kind == "dec2":
+            # a fixed decimal too small for the value ahead of a bytes decimal that holds it
+            schema = (["null"] if urnd.random() < 0.5 else []) + [
+                {"type": "fixed", "name": "Small", "size": 2, "logicalType": "decimal", "precision": 4, "scale": 2},
+                {"type": "bytes", "logicalType": "decimal", "precision": 12, "scale": 2}]
+            val = urnd.choice([decimal.Decimal("-400"), decimal.Decimal("-4E+2"), decimal.Decimal("400"), decimal.Decimal("-327.69"),
+                               decimal.Decimal("327.68"), decimal.Decimal("-12345678.91")])
+            uc = p_binary.sl_roundtrip_case(fa, "u%d" % i, schema, [val], tuples=True, parsed_form=urnd.random() < 0.4)
+            uc["c16"] = True
+            ucases.append(uc)
+            continue
         if kind == "dec":
             prec = urnd.choice([4, 9, 18, 30])
             scale = urnd.choice([0, 2, prec // 2])
@@ -195,6 +206,11 @@ def run_c16(ctx, fa):
             val = datetime.datetime(urnd.randint(1971, 2100), urnd.randint(1, 12), urnd.randint(1, 28), urnd.randint(0, 23), 0, 0, 0, tzinfo=datetime.timezone.utc)
             plain = ["double", "string"]
         schema = (["null"] if urnd.random() < 0.5 else []) + plain + [lt]
+        w = urnd.random()
+        if w < 0.2:
+            schema, val = {"type": "map", "values": lt}, {"k": val, "é": val}          # the logical type as the values of a map
+        elif w < 0.35:
+            schema, val = {"type": "array", "items": lt}, [val, val]
         uc = p_binary.sl_roundtrip_case(fa, "u%d" % i, schema, [val], tuples=True, parsed_form=urnd.random() < 0.4)
         uc["c16"] = True
         ucases.append(uc)
